@@ -158,6 +158,16 @@ func (x *Exec) callFunc(call *ast.CallExpr, obj *types.Func, recv *Val, args []*
 	fi := x.W.ByObj[obj.Origin()]
 	if sf, ok := x.W.Specs[key]; ok && fi != nil && fi.IsSpec {
 		var v *Val
+		if !x.pure && x.W.SameSCC(x.Fn.Key, key) {
+			_, pnames := x.paramNames(nil, obj, fi)
+			names := map[string]*Val{}
+			for i, a := range args {
+				if i < len(pnames) {
+					names[pnames[i]] = a
+				}
+			}
+			x.checkDecreases(st, x.W.CS.ByKey[key], &CEnv{X: x, Names: names, St: st, Pkg: fi.Pkg}, x.W.pos(call.Pos()))
+		}
 		x.wrapCfail("application of "+key, func() { v = x.applySpec(sf, st, args, nil, nil) })
 		k(st, v)
 		return
@@ -178,6 +188,23 @@ func (x *Exec) callFunc(call *ast.CallExpr, obj *types.Func, recv *Val, args []*
 	default:
 		oos("call of %s without a trusted contract at %s", key, x.W.pos(call.Pos()))
 	}
+}
+
+// checkDecreases emits the termination obligation of a recursive call (callee contract c, callee parameters bound in env).
+func (x *Exec) checkDecreases(st *St, c *Contract, env *CEnv, pos string) {
+	if x.measure0 == nil {
+		x.NoTermination = true
+		return
+	}
+	if c == nil || c.Decreases == nil {
+		x.emit(st, oblTemplate{kind: "decreases", label: "recursion", clause: "callee in the same recursion group has no decreases clause", pos: pos,
+			name: x.Fn.Key + "/decreases#recursion"}, nil, False)
+		return
+	}
+	var m1 []measureComp
+	x.wrapCfail("decreases of "+c.Key, func() { m1 = x.measureOf(c, env) })
+	x.emit(st, oblTemplate{kind: "decreases", label: "recursion", clause: c.Decreases.Text, pos: pos,
+		name: x.Fn.Key + "/decreases#recursion"}, nil, decreasesGoal(m1, x.measure0))
 }
 
 // implementers returns the named types of the repository that implement iface and carry method name.
@@ -586,12 +613,8 @@ func (x *Exec) callContract(call *ast.CallExpr, c *Contract, obj *types.Func, fi
 		x.assertWF(st, "call#"+short, pos)
 	}
 	// termination of recursion
-	if fi != nil && fi == x.Fn && fr.fi == x.Fn && !fr.inlined {
-		if c.Decreases != nil && x.measure0 != nil {
-			m := env.tr(c.Decreases.Expr).T
-			x.emit(st, oblTemplate{kind: "decreases", label: "recursion", clause: c.Decreases.Text, pos: pos,
-				name: x.Fn.Key + "/decreases#recursion"}, nil, And(Cmp("<", m, x.measure0), Cmp(">=", m, IntLit(0))))
-		}
+	if fi != nil && x.W.SameSCC(x.Fn.Key, fi.Key) {
+		x.checkDecreases(st, c, env, pos)
 	}
 	// havoc the frame
 	var targets []modTarget
